@@ -1,8 +1,8 @@
 (* C15 — codec parameter parsing is spec-correct and total on arbitrary bytes.
    Statements only; the proofs are in Proofs/C15*.v. *)
 From Coq Require Import ZArith List Bool.
-From V Require Import C15BitFmt C15Ebsp C15H264 C15Hevc C15Asc
-  C15BitFmtProofs C15EbspProofs C15H264Proofs C15HevcProofs C15AscProofs.
+From V Require Import C15BitFmt C15Ebsp C15H264 C15Hevc C15Asc C15Pure
+  C15BitFmtProofs C15EbspProofs C15H264Proofs C15HevcProofs C15AscProofs C15PureProofs.
 Import ListNotations.
 Open Scope Z_scope.
 
@@ -156,17 +156,34 @@ Theorem C15_hevc_inter_rps_rejected : exists b a,
 Proof. exact hevc_inter_rps_rejected. Qed.
 Print Assumptions C15_hevc_inter_rps_rejected.
 
-(* the oracles applied to the implementation accept the model on every input *)
+(* parsers are pure: the implementation is observed as (first result, the caller's backing array
+   after both calls incl. the bytes up to its capacity, second result on the same buffer); a
+   function seen through that observation passes the purity oracle — buffer unchanged, second
+   result = first — whenever its result is acceptable.  Purity is free on the model side (the
+   Gallina parsers are functions); the theorem states the obligation the harness puts on
+   RawSPS.Decode, H265RawSPS/H265RawVPS.Decode, AudioSpecificConfig.Decode and MetadataIsReady *)
+Theorem C15_parse_twice_same : forall (O : Type) (eqb : O -> O -> bool) (ok : O -> bool) f data,
+  (forall o, eqb o o = true) -> ok (f data) = true ->
+  pure_ok eqb ok data (twice f data) = true.
+Proof. exact parse_twice_same. Qed.
+Print Assumptions C15_parse_twice_same.
+
+(* the oracles applied to the implementation (purity + reported values = the standard's) accept
+   the model on every input *)
 Theorem C15_model_passes : forall rec data,
-  ok_h264 rec data (go_h264_obs data) = true /\
-  ok_h265 rec data (go_h265_obs data) = true /\
-  ok_vps rec data (go_vps_obs data) = true /\
-  ok_asc rec data (go_asc data) = true.
+  pure_ok vobs_eqb (ok_h264 rec data) data (twice go_h264_obs data) = true /\
+  pure_ok vobs_eqb (ok_h265 rec data) data (twice go_h265_obs data) = true /\
+  pure_ok pobs_eqb (ok_vps rec data) data (twice go_vps_obs data) = true /\
+  pure_ok aobs_eqb (ok_asc rec data) data (twice go_asc data) = true.
 Proof.
-  intros. repeat split.
+  intros. repeat split; apply parse_twice_same.
+  - exact vobs_eqb_refl.
   - apply h264_model_passes.
+  - exact vobs_eqb_refl.
   - apply h265_model_passes.
+  - intros [[[x y] z]|]; cbn; auto. rewrite !Z.eqb_refl. reflexivity.
   - apply vps_model_passes.
+  - intros [[x y]|]; cbn; auto. rewrite !Z.eqb_refl. reflexivity.
   - apply asc_model_passes.
 Qed.
 Print Assumptions C15_model_passes.
